@@ -32,6 +32,9 @@ inductive PVal where
   | dict (kv : List (String × PVal))
   | list (xs : List PVal)
   | none
+  | pair (name : String) (v : PVal)     -- value of a multiplexer: (case name, content) — also what decoding returns
+  | keyed (key : Int) (v : PVal)        -- value of a multiplexer: (switch-key value, content)
+  | nokey (v : PVal)                    -- value of a multiplexer: (None, content) = the default case
 deriving Repr, Inhabited
 
 mutual
@@ -42,7 +45,12 @@ inductive Dop where
   | dynLenField (offset countBytePos countBitPos : Nat) (countDop : Dop) (item : Dop)
   | endMarkerField (termVal : IVal) (termDop : Dop) (item : Dop)
   | eopField (minItems : Option Nat) (maxItems : Option Nat) (item : Dop)
+  | mux (bytePos swBytePos : Nat) (swBitPos : Option Nat) (swDop : Dop) (cases : List MuxCaseD)
+        (dflt : Option (String × Option Dop))
   | unsupported
+/-- a CASE of a multiplexer: short name, limits of the switch key, content structure -/
+inductive MuxCaseD where
+  | mk (name : String) (lower upper : Int) (struct : Option Dop)
 inductive Param where
   | mk (name : String) (bytePos : Option Nat) (bitPos : Option Nat) (kind : PKind)
 inductive PKind where
@@ -275,6 +283,9 @@ mutual
 def pvalEq : PVal → PVal → Bool
   | .atom a, .atom b => a == b
   | .none, .none => true
+  | .pair n x, .pair m y => n == m && pvalEq x y
+  | .keyed k x, .keyed l y => k == l && pvalEq x y
+  | .nokey x, .nokey y => pvalEq x y
   | .list xs, .list ys => pvalListEq xs ys
   | .dict xs, .dict ys => pvalDictEq xs ys
   | _, _ => false
@@ -288,6 +299,32 @@ def pvalDictEq : List (String × PVal) → List (String × PVal) → Bool
   | _, _ => false
 
 end
+
+/-! ### multiplexers -/
+
+def MuxCaseD.name : MuxCaseD → String | .mk n _ _ _ => n
+def MuxCaseD.lower : MuxCaseD → Int | .mk _ l _ _ => l
+def MuxCaseD.upper : MuxCaseD → Int | .mk _ _ u _ => u
+def MuxCaseD.struct : MuxCaseD → Option Dop | .mk _ _ _ s => s
+
+/-- insertion into a list sorted by (lower, upper) — `sorted(limits)` of `_get_default_case_key` -/
+def insertLimits (x : Int × Int) : List (Int × Int) → List (Int × Int)
+  | [] => [x]
+  | y :: ys => if x.1 < y.1 ∨ (x.1 = y.1 ∧ x.2 ≤ y.2) then x :: y :: ys else y :: insertLimits x ys
+
+/-- `Multiplexer._get_default_case_key`: the smallest non-negative key no regular case claims -/
+def defaultCaseKey (cases : List MuxCaseD) : Int :=
+  let sorted := cases.foldl (fun acc c => insertLimits (c.lower, c.upper) acc) []
+  sorted.foldl (fun key lu => if lu.1 ≤ key ∧ key ≤ lu.2 then lu.2 + 1 else key) 0
+
+/-- first case whose key range contains `key` -/
+def caseOfKey (key : Int) : List MuxCaseD → Option MuxCaseD
+  | [] => none
+  | c :: cs => if c.lower ≤ key ∧ key ≤ c.upper then some c else caseOfKey key cs
+
+def caseOfName (name : String) : List MuxCaseD → Option MuxCaseD
+  | [] => none
+  | c :: cs => if c.name = name then some c else caseOfName name cs
 
 /-- `LengthKeyParameter.encode_placeholder_into_pdu` -/
 def encodeKeyPlaceholder (name : String) (bytePos bitPos : Option Nat) (dop : Dop) (pv : Option PVal) : EncM Unit := do
@@ -392,6 +429,41 @@ def encodeDop : (fuel : Nat) → Dop → PVal → EncM Unit
       modifyS fun s' => { s' with isEndOfPdu := s.isEndOfPdu }
     | .atom (.str _) | .atom (.bytes _) => raise .unmodelled    -- str/bytes are Sequences too
     | _ => do odxraise .encode; pure ()
+  | fuel+1, .mux bytePos swBytePos swBitPos swDop cases dflt, pv => do
+    let s ← getS
+    if s.cursorBit ≠ 0 then raise .encode                       -- "Multiplexer parameters must be aligned"
+    else
+      -- (case name, switch-key value, structure of the case, content)
+      let sel : Option (Int × Option Dop × PVal) :=
+        match pv with
+        | .pair name v | .dict [(name, v)] =>
+          (match caseOfName name cases with
+           | some c => some (c.lower, c.struct, v)
+           | none => (match dflt with
+             | some (dn, ds) => if dn = name then some (defaultCaseKey cases, ds, v) else none
+             | none => none))
+        | .keyed k v =>
+          (match caseOfKey k cases with
+           | some c => some (k, c.struct, v)
+           | none => (match dflt with | some (_, ds) => some (k, ds, v) | none => none))
+        | .nokey v => (match dflt with | some (_, ds) => some (defaultCaseKey cases, ds, v) | none => none)
+        | _ => none
+      match pv with
+      | .list _ => raise .unmodelled                                -- (case_spec, value) given as a list: not forwarded
+      | _ =>
+      match sel with
+      | none => raise .encode
+      | some (key, st, content) => do
+        modifyS fun s' => { s' with origin := s.cursorByte, cursorByte := s.cursorByte + swBytePos, cursorBit := swBitPos.getD 0 }
+        encodeDop fuel swDop (.atom (.int key))
+        modifyS fun s' => { s' with cursorBit := 0, cursorByte := s.cursorByte + bytePos }
+        match st with
+        | some d => encodeDop fuel d content
+        | none =>
+          (match content with
+           | .none | .dict [] => emplaceBytes [] none
+           | _ => raise .encode)
+        modifyS fun s' => { s' with origin := s.origin }
   | fuel+1, .unsupported, _ => raise .unmodelled
 
 /-- the item loop shared by the dynamic fields: the last item inherits `is_end_of_pdu` -/
